@@ -1352,6 +1352,8 @@ func (h *qHist) layouts(nsh int, grouped bool, max int) []*qLayout {
 
 // c12History: the same kind of data spread by the real routing over 1..3 shards; every query is answered under
 // many layouts (leaf partitions, compute nodes, delivery schedules); each answer is judged against the reference
+var c12Directed bool // the history under way also asks the directed skewed-condition queries (its own sub-trace)
+
 func c12History(h *qHist, nsh, batches, nq, maxLay int, sparse bool) error {
 	rng := h.rng
 	if err := h.open(); err != nil {
@@ -1442,6 +1444,45 @@ func c12History(h *qHist, nsh, batches, nq, maxLay int, sparse bool) error {
 		free.free = true
 		h.query(q, free, nil)
 	}
+	// conditions whose named values live in SOME shards only: with the series spread by the routing hash a shard
+	// typically holds series of the metric but none under one of the values a negation / a disjunction names; such a
+	// shard still contributes everything the condition selects there
+	if nsh > 1 && (c12Directed || sparse) {
+		hosts := map[string]bool{}
+		for _, s := range h.series {
+			hosts[s.host] = true
+		}
+		var hs []string
+		for v := range hosts {
+			hs = append(hs, v)
+		}
+		sort.Strings(hs)
+		sumItem := []qItem{{"", "s"}}
+		var conds []*qCond
+		for _, v := range hs {
+			conds = append(conds, &qCond{op: "ne", k: "host", vs: []string{v}})
+			conds = append(conds, &qCond{op: "notin", k: "host", vs: []string{v, hs[0]}})
+			for _, w := range hs {
+				if w > v {
+					conds = append(conds, &qCond{op: "or", l: &qCond{op: "eq", k: "host", vs: []string{v}}, r: &qCond{op: "eq", k: "host", vs: []string{w}}})
+				}
+			}
+		}
+		rng.Shuffle(len(conds), func(i, j int) { conds[i], conds[j] = conds[j], conds[i] })
+		if len(conds) > 6 {
+			conds = conds[:6]
+		}
+		for i, c := range conds {
+			q := &qQuery{from: h.base, to: h.base + 2*3600*1000 - 1, items: sumItem, cond: c}
+			if i%2 == 0 {
+				q.group = []string{"host"}
+			}
+			lays := h.layouts(nsh, len(q.group) > 0, 4)
+			for _, lay := range lays {
+				h.query(q, lay, nil)
+			}
+		}
+	}
 	return nil
 }
 
@@ -1475,7 +1516,11 @@ func queryMain(args []string) int {
 	}
 	rng := rand.New(rand.NewSource(*seed))
 	kinds := map[string]int{}
-	for i := 0; i < *hist; i++ {
+	nhist := *hist
+	if *mode == "c12" {
+		nhist += 2 // two more histories (2 and 3 shards) that also ask the directed skewed-condition queries
+	}
+	for i := 0; i < nhist; i++ {
 		h := &qHist{rec: rec, rng: rng, sum: sum, dir: filepath.Join(*scratch, fmt.Sprintf("%s-%d", *mode, i)), dbName: fmt.Sprintf("db%d", i),
 			debug: *debug, kinds: kinds, hangMs: *hangMs}
 		h.base = qBases[rng.Intn(len(qBases))].UnixMilli()
@@ -1487,7 +1532,11 @@ func queryMain(args []string) int {
 			err = c11History(h, *steps, *nq)
 		case "c12":
 			// every fourth history is sparse (one series, three shards)
-			if i%4 == 3 {
+			if i >= *hist {
+				c12Directed = true
+				err = c12History(h, 2+(i-*hist)%2, *steps, 1, 6, false)
+				c12Directed = false
+			} else if i%4 == 3 {
 				err = c12History(h, 3, *steps, *nq, *maxLay, true)
 			} else {
 				err = c12History(h, 1+i%3, *steps, *nq, *maxLay, false)
